@@ -59,6 +59,11 @@ CORPUS = [
     Mut('c13-plates-expanded-under-forward-enumeration', 'torchtree/core/utils.py', '', "        for i in reversed(range(len(obj))):\n            expand_plates(obj[i], obj, i)", "        for i, element in enumerate(obj):\n            expand_plates(element, obj, i)",
         expect=[('C13.M', 'expand_plates::no-list-surgery-under-forward-enumeration')], mode='text'),
     Mut('c13-benign-plates-reverse-range', 'torchtree/core/utils.py', '', "        for i in reversed(range(len(obj))):\n            expand_plates(obj[i], obj, i)", "        for i in range(len(obj) - 1, -1, -1):\n            expand_plates(obj[i], obj, i)", benign=True, mode='text'),
+    Mut('c13-full-path-classes-registered-under-their-short-name', 'torchtree/core/utils.py', '', "    klass = getattr(module, class_name)\n    return klass\n", "    klass = getattr(module, class_name)\n    if isinstance(klass, type):\n        register_class(klass, class_name)\n    return klass\n",
+        expect=[('C13.G', 'register_class-call')], mode='text'),
+    Mut('c13-view-update-notifies-the-view-only', 'torchtree/core/parameter.py', 'ViewParameter', 'self.parameter.fire_parameter_changed()', 'self.fire_parameter_changed()', expect=[('C13.U', 'in-place::')]),
+    Mut('c13-branch-lengths-share-the-heights-flag', 'torchtree/evolution/tree_model.py', '', "        if self.branch_lengths_need_update:\n            heights = self.node_heights\n", "        if self.heights_need_update or self.branch_lengths_need_update:\n            heights = self.node_heights\n",
+        expect=[], benign=True, mode='text'),
 ]
 for m in CORPUS:
     if m.id == 'c13-duplicate-check-after':
